@@ -270,7 +270,11 @@ pub fn run_case(c: &Case, path: &std::path::Path) -> Outcome {
         Ok(Ok(())) => {}
         Ok(Err(e)) => o.inconclusive = Some(e),
         Err(p) if p.msg.contains(crate::c03::GROW_MSG) => {
-            o.inconclusive = Some("pre-sized file was too small for the pinned stretch".into())
+            // the run had to stop, but the series measured so far is still evidence: judge it
+            judge(c, &mut o);
+            if o.violations.is_empty() {
+                o.inconclusive = Some("pre-sized file was too small for the pinned stretch".into())
+            }
         }
         Err(p) => o.violations.push((
             format!("space:{}", util::panic_signature(&p)),
